@@ -43,10 +43,13 @@ Shape == { [Base EXCEPT !.sub = "shape", !.kind = k, !.spIssuer = i, !.forceAuth
              k \in Kinds, i \in BOOLEAN, f \in BOOLEAN, p \in BOOLEAN, n \in BOOLEAN, r \in {"nil", "zero", "one", "two"},
              z \in {"utc", "+0530", "-0800", "dst"}, sc \in StrClasses, sr \in BOOLEAN }
 Meta  == { x \in { [Base EXCEPT !.sub = "meta", !.kind = "metadata", !.variant = v, !.hours = h, !.signReq = sr, !.skip = sk,
-                                !.strclass = sc, !.encKey = e, !.signKey = s, !.zone = z] :
+                                !.strclass = sc, !.encKey = e, !.signKey = s, !.zone = z, !.spIssuer = i] :
+                     i \in BOOLEAN,
                      v \in {"plain", "slo"}, h \in HoursSet, sr \in BOOLEAN, sk \in BOOLEAN, sc \in StrClasses,
                      e \in {"field", "setter", "both"}, s \in KeySrc, z \in {"utc", "+0530", "dst"} } :
-             (x.variant = "plain" => x.hours = "0") }
+             /\ (x.variant = "plain" => x.hours = "0")
+             \* (the fall-back of the entity ID is independent of strings, zones and hours: one representative of each)
+             /\ (~x.spIssuer => (x.strclass = "plain" /\ x.zone = "utc" /\ x.hours = "0")) }
 Inputs == Keys \cup Shape \cup Meta
 Cfgs == [x : {0}]
 
@@ -120,6 +123,9 @@ C19_OK(cfg, in, o) ==
       /\ o.signcert = Signer(in) /\ o.signcert = o.message_signer     \* the key that actually signs (C13)
       /\ o.enccert = EncCert(in) /\ o.decrypts                        \* the key that actually decrypts (C11)
       /\ o.methods_ok /\ o.valid_ok /\ o.roundtrip_ok
+
+\* C11 (fragment): every data-encryption method the metadata advertises decrypts
+C11_OK(cfg, in, o) == (in.sub = "meta") => (o.built /\ o.methods_ok /\ o.decrypts)
 
 Conforms(in, m, o) ==
    /\ o.built = m.built
